@@ -267,3 +267,13 @@ Proof.
   - intros k N1 N2 N4. rewrite (F_other (strip_r r) k N1 N2). cbn [strip_r hq_fields].
     apply strip_expect_filter. exact N4.
 Qed.
+
+(* ---------- emission does not change the request: the state after is the state before, so every later emission of
+   the same request (replay) is the same header list, in particular with the same :authority / host *)
+Theorem emission_pure n v m s a p f :
+  snd (emit_request n v m s a p f) = f
+  /\ fst (emit_request n v m s a p (snd (emit_request n v m s a p f))) = fst (emit_request n v m s a p f).
+Proof. split; reflexivity. Qed.
+
+Theorem emission_h1_pure r : snd (emit_h1_request r) = hq_fields r.
+Proof. reflexivity. Qed.
